@@ -103,9 +103,14 @@ def run_chain(rp, before, after, pmgr_cbs, final_state='FAILED'):
     return called, task.state
 
 
-def run_added(rp, groups, order):
+EARLY = ['PMGR_LAUNCHING_PENDING', 'PMGR_LAUNCHING', 'PMGR_ACTIVE_PENDING']
+
+
+def run_added(rp, groups, order, start=None):
     """pilots handed to the REAL TaskManager.add_pilots in groups (one call per group, a list where the group has
-    several), one running task bound to each; then the pilots end, in `order`, through the real Pilot._update.
+    several), one live task bound to each; then the pilots end, in `order`, through the real
+    PilotManager._update_pilot (which fills the gap up to the reported state) and Pilot._update.
+    `start`: the state each pilot handle is in when its final state is reported (default PMGR_ACTIVE).
     Returns after each ending the state of every task"""
     import threading as mt
     tm = stubs.make_tmgr(rp)
@@ -119,10 +124,11 @@ def run_added(rp, groups, order):
     pilots = {}
     def mkp(i):
         pilot = object.__new__(rp.Pilot)
-        pilot._uid, pilot._state, pilot._log, pilot._pmgr = 'pilot.%04d' % i, 'PMGR_ACTIVE', rpload.NullLog(), pm
+        st0 = (start or {}).get(i, 'PMGR_ACTIVE')
+        pilot._uid, pilot._state, pilot._log, pilot._pmgr = 'pilot.%04d' % i, st0, rpload.NullLog(), pm
         pilot._cb_lock = mt.RLock()
         pilot._callbacks = {m: dict() for m in rp.constants.PMGR_METRICS}
-        pilot._pilot_dict = {'uid': pilot._uid, 'state': 'PMGR_ACTIVE'}
+        pilot._pilot_dict = {'uid': pilot._uid, 'state': st0}
         pilot._sub = _Sub()
         pilot._tmgr = None
         pilot.attach_tmgr = lambda t, pilot=pilot: setattr(pilot, '_tmgr', t)
@@ -132,11 +138,16 @@ def run_added(rp, groups, order):
     for g in groups:
         ps = [mkp(i) for i in g]
         tm.add_pilots(ps if len(ps) > 1 else ps[0])
-    tasks = {i: stubs.make_task(rp, tm, 'task.%06d' % i, 'AGENT_EXECUTING', pilot='pilot.%04d' % i) for i in pilots}
+    pm._pilots = {p._uid: p for p in pilots.values()}
+    pm._pilots_lock = mt.RLock()
+    pm.advance = lambda *a, **k: None
+    tasks = {i: stubs.make_task(rp, tm, 'task.%06d' % i,
+                                'AGENT_EXECUTING' if p._state == 'PMGR_ACTIVE' else 'TMGR_STAGING_INPUT_PENDING',
+                                pilot='pilot.%04d' % i) for i, p in pilots.items()}
     snaps = []
     for i, st in order:
         try:
-            pilots[i]._update({'uid': pilots[i]._uid, 'state': st})
+            pm._update_pilot({'uid': pilots[i]._uid, 'state': st}, publish=False)
         except RuntimeError:
             pass
         snaps.append({j: (t.state, t.exception_detail) for j, t in tasks.items()})
@@ -153,21 +164,25 @@ def added_part(ctx, rp):
         while i < k:
             m = rng.choice([1, 1, 2, 3]); groups.append(ids[i:i + m]); i += m
         order = [(i, rng.choice(['DONE', 'FAILED', 'CANCELED'])) for i in rng.sample(range(k), rng.randint(1, k))]
-        snaps = run_added(rp, groups, order)
+        # the final state of a pilot may reach the client while the handle is still in an earlier state
+        start = {i: rng.choice(EARLY) for i in range(k) if rng.random() < 0.35}
+        snaps = run_added(rp, groups, order, start)
+        live0 = {i: ('TMGR_STAGING_INPUT_PENDING' if i in start else 'AGENT_EXECUTING') for i in range(k)}
         n += 1
-        ctx.case({'added': groups, 'order': order}, nontrivial=any(len(g) > 1 for g in groups))
+        ctx.case({'added': groups, 'order': order, 'start': start}, nontrivial=any(len(g) > 1 for g in groups) or bool(start))
         dead = set()
         for (i, st), snap in zip(order, snaps):
             dead.add(i)
             for j, (ts, det) in snap.items():
                 if j in dead and (ts != 'FAILED' or 'pilot.%04d' % j not in str(det)):
                     ctx.fail('added-pilots:dead-pilot-keeps-its-tasks',
-                             'pilots were added as %s; pilot %d ended %s, its task is %s (%s)' % (groups, j, st, ts, det),
-                             {'added': {'groups': groups, 'order': order}})
+                             'pilots were added as %s; pilot %d (handle in %s) ended %s, its task is %s (%s)'
+                             % (groups, j, start.get(j, 'PMGR_ACTIVE'), st, ts, det),
+                             {'added': {'groups': groups, 'order': order, 'start': {str(a): b for a, b in start.items()}}})
                     break
-                if j not in dead and ts != 'AGENT_EXECUTING':
+                if j not in dead and ts != live0[j]:
                     ctx.fail('added-pilots:bystander-changed', 'task of live pilot %d became %s' % (j, ts),
-                             {'added': {'groups': groups, 'order': order}})
+                             {'added': {'groups': groups, 'order': order, 'start': {str(a): b for a, b in start.items()}}})
                     break
     ctx.obligation('pilots added one by one and in lists (%d cases): the tasks of a pilot that ends are failed, whichever call added it' % n, 'tie', True, '')
 
@@ -304,14 +319,15 @@ def replay(ctx, data):
     if 'added' in inp:
         a = inp['added']
         order = [tuple(x) for x in a['order']]
-        snaps = run_added(rp, a['groups'], order)
+        start = {int(k): v for k, v in (a.get('start') or {}).items()}
+        snaps = run_added(rp, a['groups'], order, start)
         ok, dead = True, set()
         for (i, st), snap in zip(order, snaps):
             dead.add(i)
             print('after pilot', i, st, ':', snap)
             for j, (ts, det) in snap.items():
                 if j in dead and (ts != 'FAILED' or 'pilot.%04d' % j not in str(det)): ok = False
-                if j not in dead and ts != 'AGENT_EXECUTING': ok = False
+                if j not in dead and ts != ('TMGR_STAGING_INPUT_PENDING' if j in start else 'AGENT_EXECUTING'): ok = False
         return ok
     if 'chain' in inp:
         c = inp['chain']
